@@ -1,6 +1,7 @@
 (* driver for C18: case line as for C17 (harness/loopharness.h) with the actions
    l<fl>:<cb> wi<fd>:<cond>:<fl>:<cb> ws<sig>:<fl>:<cb> c<id> e<n> k<sig> - and the ops r0 o
-   R<fd>:<revents> K<sig>.  A case that starts with the token F runs the self-pipe fallback under
+   R<fd>:<revents> K<sig>, the action s (tickit_stop) and the op u<k> (tickit_run, stopped by the
+   harness in its k-th ppoll at the latest).  A case that starts with the token F runs the self-pipe fallback under
    a custom loop (model LoopPipeDefs.f_run, oracle LoopPipeSpec.fb_checkb; ops r0 and B<sig>).  model = LoopSigDefs.srun fixed_cfg (VERIF_C18_PINNED=1: the
    pinned behaviour of defects #24/#25); oracle = LoopSigSpec.xspec_checkb. *)
 let zi = z_of_int
@@ -21,6 +22,7 @@ let action_of a =
   | 'c' when String.length a > 1 && a.[1] <> 'b' -> Some (SCancel (zi (int_of_string (tl a 1))))
   | 'e' -> Some (SErrno (zi (int_of_string (tl a 1))))
   | 'k' -> Some (SRaise (zi (int_of_string (tl a 1))))
+  | 's' when String.length a = 1 -> Some SStop
   | _ -> None
 let parse_case line =
   let cbs = Hashtbl.create 8 in
@@ -43,6 +45,7 @@ let parse_case line =
            | 'o' -> ops := STick true :: !ops
            | 'R' -> (match ints (tl tok 1) with [fd; rv] -> ops := SReady (zi fd, zi rv) :: !ops | _ -> failwith "R")
            | 'K' -> ops := SArrive (zi (int_of_string (tl tok 1))) :: !ops
+           | 'u' -> ops := SRunLoop (nat_of_int (max 1 (int_of_string (tl tok 1)))) :: !ops
            | _ -> failwith ("op " ^ tok)))
     (split_ws line);
   let env z = try Hashtbl.find cbs (int_of_z z) with Not_found -> [] in
@@ -73,7 +76,8 @@ let parse_fcase line =
   let (env, ops) = parse_case plain in
   (env, List.map (function SArrive sg -> FBetween sg | SAct a -> FAct a | STick false -> FTick | _ -> failwith "not a fallback op") ops)
 let drain_late = (try Sys.getenv "VERIF_C18_DRAINLATE" = "1" with Not_found -> false)
-let cfg = if (try Sys.getenv "VERIF_C18_PINNED" = "1" with Not_found -> false) then pinned_cfg else fixed_cfg
+let cfg = if (try Sys.getenv "VERIF_C18_PINNED" = "1" with Not_found -> false) then pinned_cfg
+  else if (try Sys.getenv "VERIF_C18_STOPEARLY" = "1" with Not_found -> false) then stop_early_cfg else fixed_cfg
 let model line =
   if is_fallback line then begin
     let (env, ops) = parse_fcase line in
